@@ -424,10 +424,11 @@ def reportComp (t : Tree Path) (c : CDesc) : List String :=
   | none => [s!"{tag} missing"]
   | some (d, s, kids) =>
     let ids := List.range c.f.n
+    -- a child that completed in THIS run wrote its output; otherwise it holds what it held when the run started
     let cls (i : Nat) : String :=
       if isComp (kids i) then "-"
-      else if (s.out i).isNd then "ND"
-      else if showVal (s.out i) == showVal (d.out0 i) then "prev" else "new"
+      else if s.st i = .done then "new"
+      else if (s.out i).isNd then "ND" else "prev"
     [ s!"{tag} over {phaseOver s.phase}",
       s!"{tag} failed {compFailed s}",
       s!"{tag} exec {showNats s.execLog}",
@@ -445,6 +446,7 @@ structure DSt where
   nsched : List NTok := []
   fsched : List FTok := []
   flow : FlowD := {}
+  lastTree : Option (Tree Path) := none
 
 def DSt.init : DSt :=
   { f := { n := 0, slots := [], down := [], starters := [], onExec := [], fails := [], rank := [] }, sched := [] }
@@ -555,8 +557,30 @@ def step' (s : DSt) (ws : List String) : DSt × List String :=
     let status := match g.err with
       | some m => m
       | none => if g.toks.isEmpty then "ok" else "tokens-left"
-    (s, [s!"wf {s.descs.all (·.f.check)}"] ++ (s.descs.map (reportComp g.t)).flatten ++
+    ({ s with lastTree := some g.t },
+     [s!"wf {s.descs.all (·.f.check)}"] ++ (s.descs.map (reportComp g.t)).flatten ++
         [s!"chain {showErr (raised g.t)}", s!"status {status}"])
+  | ["sel", p] => match parsePath p with
+    | some p => if (findDesc s.descs p).isSome then ({ s with cur := some p }, []) else (s, ["bad-op"])
+    | none => (s, ["bad-op"])
+  | ["nrerun"] =>
+    -- the next run of a history: failed flags cleared, `exec` / `fails` of any composite re-declared after `sel`;
+    -- every level restarts with empty all-of triggers
+    match s.lastTree with
+    | none => (s, ["bad-op"])
+    | some t =>
+      let total := (s.descs.map (·.f.n)).sum
+      let ed : Path → Edit Path := fun p =>
+        match findDesc s.descs p with
+        | some c => { fails := c.f.toDag.fails, onExec := c.f.toDag.onExec, exc := fun i => p ++ [i], reset := true }
+        | none => { fails := fun _ => false, onExec := fun _ => false, exc := fun i => p ++ [i], reset := true }
+      let g := runComp [] { t := nrestart t ed, toks := s.nsched, fuel := 16 * (total + 4) * (total + 4) + 64 }
+      let status := match g.err with
+        | some m => m
+        | none => if g.toks.isEmpty then "ok" else "tokens-left"
+      ({ s with lastTree := some g.t },
+       ["rerun"] ++ (s.descs.map (reportComp g.t)).flatten ++
+          [s!"chain {showErr (raised g.t)}", s!"status {status}"])
   | _ => (s, ["bad-op"])
 
 def main : IO Unit := Proto.run DSt.init step'
